@@ -303,7 +303,9 @@ class Run:
             for part in xml_parts(self.prs):
                 if part._element.tag.endswith("}chartSpace"):
                     self.__dict__.setdefault("idx_dups", {})[part] = {(h_, k_, v_) for h_, k_, v_, _c in _indexed_duplicates(part._element)}
-        self.open_images = sorted({part.blob for part in self.prs.part.package.iter_parts() if str(part.partname).startswith("/ppt/media/image")})[:6]
+        # bytes of every image the opened deck holds, wherever it sits (slide / layout pictures, the docProps thumbnail ...)
+        self.open_images = sorted({part.blob for part in self.prs.part.package.iter_parts()
+                                   if str(part.partname).startswith("/ppt/media/image") or str(getattr(part, "content_type", "")).startswith("image/")})[:8]
         self.acc.count("decks_opened")
         monitors.SINK.drain()
 
@@ -438,6 +440,18 @@ class Run:
         for n, c in names.items():
             if c > 1:
                 self.report("C06", "duplicate-partname", "op %s: %d parts named %s" % (opname, c, n))
+        # an rId handed to a hyperlink element designates a hyperlink (or, for a jump, a slide) - not whatever took the number since
+        known_bad = self.__dict__.setdefault("link_kind_bad", set())
+        for part in xml_parts(prs):
+            for el in xp(part._element, "//a:hlinkClick[@r:id!=''] | //a:hlinkHover[@r:id!='']"):
+                rid = el.get("{%s}id" % opcx.NS_R)
+                rel = part.rels.get(rid) if hasattr(part.rels, "get") else None
+                kind = None if rel is None else rel.reltype.rsplit("/", 1)[-1]
+                if kind not in ("hyperlink", "slide") and (id(el), rid) not in known_bad:
+                    known_bad.add((id(el), rid))
+                    if opname != "open":
+                        self.report("C06", "link-rId-designates-%s" % (kind or "nothing"), "op %s: <a:%s r:id=%r> in %s designates a relationship of kind %s" % (opname, el.tag.split("}")[1], rid, part.partname, kind))
+        self.acc.count("hyperlink_rids_checked")
         self.acc.count("relationship_maps_checked")
         # handles taken earlier still designate the same slide
         for sid, part in self.handles:
